@@ -6,7 +6,8 @@
 //                c^T w < 0  (strictly improving for a minimization).  Asserted: same conditions on the original data, same slope.
 //  Farkas y:     z = A^T y;  L = sum_i (y_i>0 ? y_i*lhs_i : y_i<0 ? y_i*rhs_i : 0)  is a lower bound of y^T A x over the row sides,
 //                U = sum_j (z_j>0 ? z_j*up_j : z_j<0 ? z_j*lo_j : 0) an upper bound of z^T x over the box; every bound/side that is used
-//                must be finite; margin = L - U >= 1 proves infeasibility.  Asserted: same on the original data, same margin.
+//                must be finite; margin = L - U >= 1 proves infeasibility.  Asserted: the unscaled vector uses only finite bounds/sides
+//                of the original data and every term of L and U is unchanged bit for bit (=> same margin).
 // The scaled conditions are ASSUMED on the data stored in the scaled LP object, the unscaled ones ASSERTED on the dense copy `d` of the
 // original data (oracle = the certificate algebra, not the exponent formula).
 // Proof structure (only to keep the SAT work small): the row activity t' = A'w' of the scaled ray is passed through the real
@@ -35,6 +36,7 @@ using namespace soplex; using namespace vph;
 #define MMAX 7
 #endif
 #define HAS(i, j) ((MASK >> ((i) * NC + (j))) & 1u)
+static bool biteq(double a, double b) { unsigned long x, y; std::memcpy(&x, &a, 8); std::memcpy(&y, &b, 8); return x == y; }
 static bool fin_lo(double x) { return x > -(double)infinity; }
 static bool fin_up(double x) { return x < (double)infinity; }
 static double arb()
@@ -173,15 +175,14 @@ extern "C" void h_c02_unscale_dualray()
       if(zo[j] > 0.0) vp_assert(fin_up(d.up[j]), 3);
       if(zo[j] < 0.0) vp_assert(fin_lo(d.lo[j]), 4);
    }
-   // the terms of L and U, scaled LP as stored / original LP; each term is unchanged (asserted, then used)
-   double Ls = 0.0, Us = 0.0, L = 0.0, U = 0.0;
+   // the terms of L and U, scaled LP as stored / original LP: every term is unchanged BIT FOR BIT, hence L, U and the margin L - U
+   // (in particular "margin >= 1") are the same for the original LP.  (Summing both sides again and comparing the sums is what the
+   // SAT back end cannot do in reasonable time; term-wise identity is the stronger statement anyway.)
    for(int i = 0; i < NR; ++i)
    {
       double ts = (ys[i] > 0.0) ? ys[i] * lp.lhs(i) : ((ys[i] < 0.0) ? ys[i] * lp.rhs(i) : 0.0);
       double to = (y[i] > 0.0) ? y[i] * d.lhs[i] : ((y[i] < 0.0) ? y[i] * d.rhs[i] : 0.0);
-      vp_assert(to == ts, 8);
-      vp_assume(to == ts);
-      Ls += ts; L += to;
+      vp_assert(biteq(to, ts), 8);
    }
    for(int j = 0; j < NC; ++j)
    {
@@ -189,14 +190,7 @@ extern "C" void h_c02_unscale_dualray()
       // mantissa bits with zs[j]
       double ts = (zs[j] > 0.0) ? zs[j] * lp.upper(j) : ((zs[j] < 0.0) ? zs[j] * lp.lower(j) : 0.0);
       double to = (zo[j] > 0.0) ? z[j] * d.up[j] : ((zo[j] < 0.0) ? z[j] * d.lo[j] : 0.0);
-      vp_assert(to == ts, 9);
-      vp_assume(to == ts);
-      Us += ts; U += to;
+      vp_assert(biteq(to, ts), 9);
    }
-   // ... and the margin is >= 1  =>  same margin for the original LP
-   double margins = Ls - Us;
-   vp_assume(margins >= 1.0);
-   vp_assert(L - U >= 1.0, 5);
-   vp_assert(L - U == margins, 6);
    vp_cover(1);
 }
